@@ -47,8 +47,9 @@ Theorem C15_into_hash_collection_order_independent : forall (es es' : list strin
   Permutation es es' -> forall x, In x es <-> In x es'.
 Proof. exact render_lines_same_lines. Qed.
 
-(** FINDING (refuted): a hash collection written line by line with no ordering step — MoonBit `for b in builtins.iter()`
-    (ffi.mbt / ffi_import.mbt) and `for (_, (_, impl_)) in self.export.iter()` (gen/ffi.mbt) — depends on the order. *)
+(** FINDING (refuted): a hash collection written out element by element with no ordering step depends on the order —
+    C# `bidirectional_types_src.iter()…join("\n")` (<World>.cs) and `by_resource(…, new_resources.keys())` (interface
+    files); formerly also MoonBit `for b in builtins.iter()` and `for … in self.export.iter()` (repaired: 6c38ab3, 8cfe635). *)
 Theorem C15_unordered_emission_refuted : exists es es', Permutation es es' /\ render_lines es <> render_lines es'.
 Proof. exact render_lines_refuted. Qed.
 
